@@ -107,6 +107,33 @@ def corrupt(r, frame, kind):
         n = r.randrange(1, 30)
         g = bytes(r.getrandbits(8) for _ in range(n))
         return struct.pack('i', n) + g, True
+    if kind == 'bad_pickle':
+        # the frame and the compressed stream are intact (zlib's checksum passes), the content is not a usable pickle:
+        # the unpickler reports such damage with many different exception types
+        good = zlib.decompress(payload)
+        c = r.randrange(8)
+        if c == 2:
+            c = 1          # (one flipped bit can make the unpickler itself run for minutes, e.g. a huge memo index - not the framing layer's business)
+        if c == 0:
+            bad = bytes([r.choice([0xff, 0xfe, 0x00, 0x07, 0x11])]) + bytes(r.getrandbits(8) for _ in range(r.randrange(0, 40)))   # unknown opcode
+        elif c == 1:
+            bad = good[:r.randrange(0, max(1, len(good)))]                             # truncated
+        elif c == 2:
+            b = bytearray(good)
+            b[r.randrange(len(b))] ^= 1 << r.randrange(8)                             # one damaged byte
+            bad = bytes(b)
+        elif c == 3:
+            bad = b'\x80\x02K\x01K\x02R.'                                              # REDUCE on a non-callable
+        elif c == 4:
+            bad = b'\x80\x02}]K\x01s.'                                                 # unhashable dict key
+        elif c == 5:
+            bad = b'\x80\x02cno_such_module_xyz\nthing\n.'                             # missing module
+        elif c == 6:
+            bad = b'0.'                                                                # pop from an empty stack
+        else:
+            bad = b''
+        data = zlib.compress(bad, 3)
+        return struct.pack('i', len(data)) + data, None
     return None, False
 
 
@@ -127,7 +154,7 @@ def run_case(prop, tier, seed, i):
     mode = 'clean' if i % 3 else 'corrupt'
     nmsgs = r.randrange(1, 14)
     msgs = [gen_msg(r, bufsize) for _ in range(nmsgs)]
-    ckind = r.choice(['neg_plain', 'neg_wrap', 'neg_wrap', 'len_small', 'len_large', 'payload', 'payload', 'garbage']) if mode == 'corrupt' else None
+    ckind = r.choice(['neg_plain', 'neg_wrap', 'neg_wrap', 'len_small', 'len_large', 'payload', 'payload', 'garbage', 'bad_pickle', 'bad_pickle']) if mode == 'corrupt' else None
     cidx = r.randrange(nmsgs) if mode == 'corrupt' else None
     stats = collections.Counter()
     sent = []
@@ -142,6 +169,7 @@ def run_case(prop, tier, seed, i):
         pending_out = bytearray()
         forwarded = 0
         frames = [frame_of(m) for m in msgs]
+        sent_msgs = list(msgs)          # what A sends; `msgs` becomes what B has to deliver if a rewritten frame still decodes
         if mode == 'corrupt':
             new, invalid = corrupt(r, frames[cidx], ckind)
             if new is None:
@@ -150,6 +178,10 @@ def run_case(prop, tier, seed, i):
                 if invalid is None:
                     ok, val = decodes(new[4:])
                     invalid = not ok
+                    if ok and val is None:
+                        # decodes to None, which the parser cannot tell from "no complete frame yet" (the library never sends None)
+                        new = frames[cidx]
+                        val = msgs[cidx]
                     if ok and val != msgs[cidx]:
                         # a bit flip that still decodes to another value is not detectable by the framing layer
                         msgs = list(msgs)
@@ -169,7 +201,7 @@ def run_case(prop, tier, seed, i):
             expect_valid = list(msgs)
         orig = b''.join(frames)
         # bytes leave A as `orig`; the network delivers `target` (same prefix up to the corrupted frame)
-        to_send = list(msgs)
+        to_send = list(sent_msgs)
         steps = 0
         a_out = 0            # bytes of orig taken from A.sock.wire
         delivered = 0        # bytes of target put into B.sock.inbuf
@@ -230,7 +262,13 @@ def run_case(prop, tier, seed, i):
         stats['delivered'] = len(B.got)
         if mode == 'clean' or (mode == 'corrupt' and not invalid and ckind != 'len_large'):
             if B.got != msgs:
-                raise V('lost_or_changed', 'quiescent without invalid frame: %d of %d messages delivered' % (len(B.got), len(msgs)), mode=mode)
+                raise V('lost_or_changed', 'quiescent without invalid frame: %d of %d messages delivered (steps %d, %d of %d bytes forwarded, '
+                        'first difference at message %d, receiver %s)'
+                        % (len(B.got), len(msgs), steps, delivered, len(target),
+                           next((k for k in range(min(len(B.got), len(msgs))) if B.got[k] != msgs[k]), min(len(B.got), len(msgs))),
+                           'connected' if B.conn.state == CONNECTION_STATE.CONNECTED else 'disconnected')
+                        + ' sender: %d bytes unsent, %d in its socket, %d of %d taken by the network, %d messages not yet sent'
+                        % (len(A.conn._TcpConnection__writeBuffer), len(A.sock.wire), a_out, len(orig), len(to_send)), mode=mode)
             if B.conn.state != CONNECTION_STATE.CONNECTED or B.disc:
                 raise V('spurious_disconnect', 'connection disconnected although every frame was valid', mode=mode)
         if mode == 'corrupt' and invalid:
